@@ -229,7 +229,7 @@ def correspond(mod, ctx, exe, budget):
     norm = getattr(mod, "norm_reply", lambda r: r)
     for c in cases:
         m = norm(next(mrep)) if c.model_req is not None else None
-        s = norm(next(srep)) if c.spec_req is not None else None
+        s = next(srep) if c.spec_req is not None else None
         stats["kinds"][c.kind] = stats["kinds"].get(c.kind, 0) + 1
         if c.impl_out:
             ok = {0: "returned", 1: "JSONPathError", 2: "other-exception"}.get(c.impl_out[0], str(c.impl_out[0])) if c.impl_out[0] in (0, 1, 2) and c.model_req and c.model_req[0] in (1, 2, 3) else None
